@@ -1,1 +1,7 @@
-
+import GeoProofs.Props.C01
+import GeoProofs.Props.C02
+import GeoProofs.Props.C03
+import GeoProofs.Props.C04
+import GeoProofs.Props.C12
+import GeoProofs.Props.C18
+import GeoProofs.Props.C19
